@@ -313,6 +313,10 @@ def main(argv):
     if unknown:
         for key, path, n, what in replay_paths:
             print("VIOLATION property=%s replay=%s  key=%s occurrences=%d :: %s" % (prop, path, key, n, what))
+        for why in inconclusive:
+            print("ALSO-INCONCLUSIVE property=%s why=%s" % (prop, why))
+        for info in lost[:2]:
+            print("--- lost worker log tail (%s/%s):\n%s" % (info["part"], info["mode"], info["log_tail"][-1200:]))
         keep = os.environ.get("VV_KEEP")
         if not keep:
             shutil.rmtree(work, ignore_errors=True)
